@@ -17,6 +17,14 @@ type client struct {
 	state      map[string]int
 	stateMutex sync.Mutex
 	capability CapabilityMap
+	// subscriptionMutex serializes the (un)registration to signals.
+	subscriptionMutex sync.Mutex
+}
+
+// subscriptionLock returns the lock to hold while a subscription is
+// counted and registered (or unregistered) remotely.
+func (c *client) subscriptionLock() *sync.Mutex {
+	return &c.subscriptionMutex
 }
 
 // messageID is shared by all the clients: several clients can use
